@@ -194,11 +194,11 @@ pub fn run(mut cx: Ctx) -> ! {
     run_seqs(&mut st, "pairs", pairs, false, true, true, &serve_script, "threaded");
     run_seqs(&mut st, "stale-state triples", stale_state_triples(), false, false, true, &serve_script, "threaded");
     if !quick {
-        let f: Vec<R> = firsts().into_iter().step_by(3).collect();
+        let f: Vec<R> = firsts();
         let mut triples = vec![];
         for a in &f {
             for b in &f {
-                for c in seconds().into_iter().step_by(2) {
+                for c in seconds() {
                     triples.push(vec![a.clone(), b.clone(), c]);
                 }
             }
